@@ -182,7 +182,9 @@ def _c05_stream_level(ctx: Ctx, r) -> None:
     reqs, resp = [], []
     for _ in range(ctx.n(150, 1500)):
         pn, pp, pd = r.choice([(8, 1, 1), (8, 2, 2), (8, 3, 1), (9, 4, 2), (16, 8, 8)])
-        o = Opts(fs=r.choice([1, 3, 250]), lt=0, gen=True, star=True, delim=True, ns=True, pn=pn, pp=pp, pd=pd)
+        # (namespace_declaration() is a public method: it is also called on streams whose options leave declarations off,
+        # i.e. version-1 streams; the declared IRI advances the writer's tables and delta bases all the same)
+        o = Opts(fs=r.choice([1, 3, 250]), lt=0, gen=True, star=True, delim=True, ns=r.random() < 0.6, pn=pn, pp=pp, pd=pd)
         g = gen.G(r, typed=True, n_prefixes=r.choice([2, 4, 6]), n_names=r.choice([3, 6]))
         ops, want = [("enroll",)], []
         for _ in range(r.randint(2, 8)):
@@ -238,6 +240,9 @@ def _c05_term_level(ctx: Ctx, r) -> None:
                 hist.append(t._iri)
             else:
                 t = g.literal()
+                if r.random() < 0.15 and pd:
+                    # the generic Literal can carry a language tag AND a datatype: the datatype wins on the wire
+                    t = Literal(t._lex, langtag="en", datatype=r.choice(gen.DTS[:-1]))
                 msg = jelly.RdfLiteral()
                 rows = enc.encode_literal(lex=t._lex, language=t._langtag, datatype=t._datatype, literal=msg)
                 hist.append((t._lex, t._langtag, t._datatype))
@@ -247,7 +252,10 @@ def _c05_term_level(ctx: Ctx, r) -> None:
                 got = dec.decode_term(msg)
             except Exception as e:  # noqa: BLE001
                 got = e
-            if got != gen.normalize_term(t):
+            want_t = gen.normalize_term(t)
+            if isinstance(t, Literal) and t._langtag is not None and t._datatype not in (None, gen.XSD + "string"):
+                want_t = Literal(t._lex, None, t._datatype)
+            if got != want_t:
                 ok = False
                 break
             for tab, size in ((enc.names, pn), (enc.prefixes, pp), (enc.datatypes, pd)):
@@ -687,6 +695,24 @@ def _c19_rdflib(ctx: Ctx, r) -> None:
         ctx.dist[f"rdflib_audits:{cls}:pp={o.pp}"] += 1
         if resp.startswith("ok ") and resp.endswith(" end") and b:
             cases.append((cls, req, resp, b))
+    # terms that are FALSY in rdflib (Literal(0), Literal(""), Literal(False), "0.0"^^xsd:double) repeated in the same slot of
+    # consecutive statements; fed as a generator so that the order is the one written here
+    XS = "http://www.w3.org/2001/XMLSchema#"
+    falsy = [rdflib.Literal("0", datatype=rdflib.URIRef(XS + "integer")), rdflib.Literal(""), rdflib.Literal("false", datatype=rdflib.URIRef(XS + "boolean")),
+             rdflib.Literal("0.0", datatype=rdflib.URIRef(XS + "double")), rdflib.Literal("", lang="en")]
+    for i in range(ctx.n(30, 300)):
+        cls = r.choice("TQ")
+        o = Opts(fs=r.choice([2, 250]), lt=0, gen=False, star=False, delim=True, pn=16, pp=4, pd=8)
+        lit = r.choice(falsy)
+        data = []
+        for j in range(r.randint(2, 5)):
+            st = (rdflib.URIRef("http://c19/s%d" % (j if r.random() < 0.5 else 0)), rdflib.URIRef("http://c19/p"), lit if r.random() < 0.8 else r.choice(falsy))
+            data.append(st if cls == "T" else (*st, rdflib.URIRef("http://c19/g")))
+        req, resp, b = rimpl.run_serr(cls, o, data)
+        ctx.case(("rdflib-falsy", req), True)
+        ctx.dist["rdflib_audits:falsy_terms"] += 1
+        if resp.startswith("ok ") and resp.endswith(" end") and b:
+            cases.append((cls, req, resp, b))
     ctx.corr("SERR", [c[1] for c in cases], [c[2] for c in cases])
     got = __import__("common").run_driver([spec_line(c[3], True) for c in cases])
     for (cls, req, resp, b), line in zip(cases, got):
@@ -865,6 +891,32 @@ def check_C16(ctx: Ctx) -> None:
                     ctx.fail(f"items yielded before the rejection differ from the valid prefix ({c['kind']})",
                              dict(bytes=b.hex(), kind=c["kind"], got=yielded[:1500], want=evs_before[:1500]))
                 ctx.dist["raised:" + line_impl.rsplit("!", 1)[1]] += 1
+    # an options row whose physical type is outside the enum (proto3 keeps unknown enum values), with rows shaped for one
+    # of the known types: no physical type allows those rows, so the stream must be rejected by both integrations
+    import rimpl
+    shapes = {
+        "triples": [jelly.RdfStreamRow(triple=jelly.RdfTriple(s_bnode="a", p_bnode="b", o_bnode="c"))],
+        "quads": [jelly.RdfStreamRow(quad=jelly.RdfQuad(s_bnode="a", p_bnode="b", o_bnode="c", g_default_graph=jelly.RdfDefaultGraph()))],
+        "graphs": [jelly.RdfStreamRow(graph_start=jelly.RdfGraphStart(g_bnode="g")),
+                   jelly.RdfStreamRow(triple=jelly.RdfTriple(s_bnode="a", p_bnode="b", o_bnode="c")),
+                   jelly.RdfStreamRow(graph_end=jelly.RdfGraphEnd())],
+    }
+    for phys in (4, 5, 17, 99):
+        for shape, rows in shapes.items():
+            for delim in (True, False):
+                row = jelly.RdfStreamRow(options=jelly.RdfStreamOptions(physical_type=phys, max_name_table_size=8, version=1))
+                b = refenc.frames_to_bytes([jelly.RdfStreamFrame(rows=[row, *rows])], delim)
+                ctx.case(("unknown-physical", phys, shape, delim), True)
+                ctx.dist["unknown_physical_type_streams"] += 1
+                for entry in ("flat", "grouped", "graph"):
+                    line = impl.run_par(entry, False, "seek", b)
+                    reqs.append(f"par {entry} 0 1 seek {b.hex()}")
+                    resp.append(line)
+                    if line.endswith(" end"):
+                        ctx.fail(f"stream of undefined physical type {phys} with {shape}-shaped rows accepted by the generic {entry} parser",
+                                 dict(bytes=b.hex(), got=line[:300]))
+                if rimpl.run_par_flat(False, "seek", b).endswith(" end") or rimpl.run_par_grouped(False, "seek", b)[1] is None:
+                    ctx.fail(f"stream of undefined physical type {phys} with {shape}-shaped rows accepted by the rdflib integration", dict(bytes=b.hex()))
     ctx.corr("PARSE", reqs, resp)
     ctx.extra["injections_per_class"] = dict(per_class)
 
@@ -909,7 +961,11 @@ def check_C06(ctx: Ctx) -> None:
             line, b = impl.run_ser_flat(o, stmts)
             reqs.append(f"ser {cls} flat {o.token()} {stmts_text(stmts)}")
         else:
-            sinks = [mk_sink(stmts)]
+            # one to three sinks through ONE stream (the later ones re-use vocabulary of the earlier ones)
+            parts = [stmts] + [gen_fitting(r, cls, o, r.randint(1, 5)) for _ in range(r.choice([0, 1, 2]))]
+            parts = [p_ for p_ in parts if p_]
+            sinks = [mk_sink(p_) for p_ in parts]
+            stmts = [st for p_ in parts for st in p_]
             line, b = impl.run_ser_grouped(o, sinks)
             reqs.append(f"ser {cls} grouped {o.token()} " + "+".join(sink_arg(s) for s in sinks))
         resp.append(line)
@@ -1022,6 +1078,12 @@ def _c06_rdflib(ctx: Ctx, r) -> None:
         if not stmts:
             continue
         store = _to_store(stmts, data_cls)
+        if data_cls == "Q" and r.random() < 0.3:
+            # graphs that were registered but hold nothing: Dataset.graphs() lists them, nothing of them may be lost or invented
+            from rdflib import BNode, URIRef
+            for name in r.sample([URIRef("http://empty.example/g1"), URIRef("urn:empty:2"), BNode("e3"), URIRef("http://empty.example/ns#g4")], r.randint(1, 3)):
+                store.graph(name)
+            ctx.dist["rdflib:datasets_with_empty_named_graphs"] += 1
         want = sorted(set(_norm_text(t) for t in rimpl.store_quads(store)))
         if data_cls == "Q" and cls == "T":
             want = sorted(set(",".join(t.split(",")[:3]) for t in want))
@@ -1101,15 +1163,7 @@ def _c06_rdflib(ctx: Ctx, r) -> None:
     # the plugin's writer choice (write_delimited / write_single per frame) against the model
     model = __import__("common").run_driver(reqs)
     for q, a, m in zip(reqs, resp, model):
-        ctx.corr_checked += 1
-        if a.startswith("!") and m.startswith("!"):
-            ok = a == m
-        else:
-            ok = a == m
-        if not ok:
-            ctx.dist["disagree:SER-rdflib-plugin"] += 1
-            if len(ctx.disagreements) < 20:
-                ctx.disagreements.append(dict(suite="SER-rdflib-plugin", request=q[:3000], impl=a[:3000], model=m[:3000]))
+        ctx.compare("SER-rdflib-plugin", q, a, m)
 
 
 # ---------------------------------------------------------------------------------------------
@@ -1843,6 +1897,57 @@ def check_C13(ctx: Ctx) -> None:
         allowed = phys != 0 and _pair_ok(phys, lt)
         if line.endswith(" end") != allowed:
             ctx.fail(f"reader {'accepts' if line.endswith(' end') else 'rejects'} physical/logical pair ({phys},{lt})", dict(bytes=b.hex(), got=line))
+    # physical types outside the enum (proto3 keeps unknown enum values): rejected whatever the rows look like, by both integrations
+    import rimpl
+    shapes = {
+        "triples": [jelly.RdfStreamRow(triple=jelly.RdfTriple(s_bnode="a", p_bnode="b", o_bnode="c"))],
+        "quads": [jelly.RdfStreamRow(quad=jelly.RdfQuad(s_bnode="a", p_bnode="b", o_bnode="c", g_default_graph=jelly.RdfDefaultGraph()))],
+        "graphs": [jelly.RdfStreamRow(graph_start=jelly.RdfGraphStart(g_default_graph=jelly.RdfDefaultGraph())),
+                   jelly.RdfStreamRow(triple=jelly.RdfTriple(s_bnode="a", p_bnode="b", o_bnode="c")),
+                   jelly.RdfStreamRow(graph_end=jelly.RdfGraphEnd())],
+        "none": [],
+    }
+    for phys in (0, 4, 5, 99):
+        for lt in (0, 1, 2, 3):
+            for shape, rows in shapes.items():
+                row = jelly.RdfStreamRow(options=jelly.RdfStreamOptions(physical_type=phys, logical_type=lt, max_name_table_size=8, version=1))
+                b = refenc.frames_to_bytes([jelly.RdfStreamFrame(rows=[row, *rows])], True)
+                ctx.case(("unknown-physical", phys, lt, shape), True)
+                for entry in ("flat", "grouped"):
+                    line = impl.run_par(entry, False, "seek", b)
+                    reqs.append(f"par {entry} 0 1 seek {b.hex()}")
+                    resp.append(line)
+                    if line.endswith(" end"):
+                        ctx.fail(f"generic {entry} parser accepts a stream of undefined physical type {phys} ({shape}-shaped rows)", dict(bytes=b.hex(), got=line[:300]))
+                if rimpl.run_par_flat(False, "seek", b).endswith(" end"):
+                    ctx.fail(f"rdflib flat parser accepts a stream of undefined physical type {phys} ({shape}-shaped rows)", dict(bytes=b.hex()))
+                if rimpl.run_par_grouped(False, "seek", b)[1] is None:
+                    ctx.fail(f"rdflib grouped parser accepts a stream of undefined physical type {phys} ({shape}-shaped rows)", dict(bytes=b.hex()))
+    # the rdflib plugin: the header tells the options it was given (table sizes, name, flags), with the logical type left
+    # open or set, delimited or not
+    import rdflib
+    plug_reqs, plug_resp = [], []
+    for i in range(ctx.n(40, 400)):
+        is_ds = r.random() < 0.5
+        store = rdflib.Dataset() if is_ds else rdflib.Graph()
+        store.add((rdflib.URIRef("http://h/s"), rdflib.URIRef("http://h/p"), rdflib.Literal("o")))
+        o = Opts(fs=250, lt=r.choice([0, 0, 2 if is_ds else 1]), gen=False, star=False, delim=r.random() < 0.6, ns=r.random() < 0.3,
+                 name=r.choice(["", "n", "näme"]), pn=r.choice([8, 16, 128, 4000]), pp=r.choice([0, 4, 32, 150]), pd=r.choice([0, 4, 32]))
+        req, line, b = rimpl.run_plug(store, o, None)
+        plug_reqs.append(req)
+        plug_resp.append(line)
+        ctx.case(("plugin-header", is_ds, o.token()), True)
+        ctx.dist["plugin_headers"] += 1
+        if not line.endswith(" end") or not b:
+            continue
+        opt_line = impl.run_par("options", False, "seek", b)
+        want_bits = [f" n={o.pn} p={o.pp} d={o.pd} ", f"name={hx(o.name)} ", f" v={2 if o.ns else 1} ", f"pt={2 if is_ds and o.lt % 10 != 3 else 1} "]
+        if o.lt:
+            want_bits.append(f" lt={o.lt} ")
+        if not all(w in " " + opt_line + " " for w in want_bits):
+            ctx.fail("rdflib plugin: the header does not tell the options the stream was written with",
+                     dict(opts=o.describe(), got=opt_line, want=want_bits, bytes=b.hex()[:400]))
+    ctx.corr("PLUG", plug_reqs, plug_resp)
     for kw in (dict(max_name_table_size=7), dict(max_name_table_size=4097), dict(max_name_table_size=8, max_prefix_table_size=4097),
                dict(max_name_table_size=8, max_datatype_table_size=2**32 - 1), dict(max_name_table_size=8, version=3)):
         base = dict(physical_type=1, version=1)
@@ -2480,12 +2585,10 @@ def check_C18(ctx: Ctx) -> None:
         verdict, evs, _ = parse_spec_response(line)
         want_st = expected_events(c["stmts"], "T" if c["cls"] == "T" else "Q")
         want = "_" if not want_st else " ".join("S" + stmt_text(s) for s in want_st)
-        if verdict == "ok" and evs == want:
+        if verdict == "ok" and _norm_text(evs) == _norm_text(want):
             continue
-        # known finding: the model predicts exactly these bytes and the statement needs more distinct entries than slots
-        sig = "C18-in-statement-eviction" if (c["overflows"] and model_by_req[c["req"]] == c["resp"]) else None
         ctx.fail(f"written file decodes to different data ({verdict})",
-                 dict(request=c["req"], referee=line[:1200], want=want[:1200]), known=sig)
+                 dict(request=c["req"], referee=line[:1200], want=want[:1200]))
     _c18_rdflib(ctx, r)
 
 
@@ -2534,11 +2637,10 @@ def _c18_rdflib(ctx: Ctx, r) -> None:
     for c, line in zip(todo, got):
         verdict, evs, _ = parse_spec_response(line)
         want = " ".join("S" + stmt_text(x) for x in expected_events(c["stmts"], c["cls"]))
-        if verdict == "ok" and evs == want:
+        if verdict == "ok" and _norm_text(evs) == _norm_text(want):  # "a"^^xsd:string and the plain "a" are the same term
             continue
-        sig = "C18-in-statement-eviction" if (c["overflows"] and model_by_req[c["req"]] == c["resp"]) else None
         ctx.fail(f"file written by the rdflib serializer decodes to different data ({verdict})",
-                 dict(request=c["req"][:1500], referee=line[:1200], want=want[:1200]), known=sig)
+                 dict(request=c["req"][:1500], referee=line[:1200], want=want[:1200]))
 
 
 def check_C20(ctx: Ctx) -> None:
